@@ -604,6 +604,11 @@ class TxRun(object):
 
     def _crash_point(self, n, kind, name):
         ctx, tap = self.ctx, self.tap
+        if getattr(self, "eval_failures", 0) >= 3:
+            # three crash states of this transaction were already unreadable / unwritable: the verdict is settled, and such
+            # states are slow to evaluate (the library retries before it gives up)
+            ctx.count("crash_points.skipped_after_eval_failures")
+            return
         with tap.muted():
             sts = tap.open_states(self.d)
             variants = ["full"]
@@ -631,6 +636,7 @@ class TxRun(object):
                     obs = evaluate(snap, "%d:%d" % (self.idx, self.j))
                 except EvalFailure as ef:
                     obs = ef
+                    self.eval_failures = getattr(self, "eval_failures", 0) + 1
                 self.pending.append((n, kind, name, variant, info, self.slim(obs)))
                 shutil.rmtree(snap, ignore_errors=True)
 
